@@ -61,6 +61,7 @@ func init() {
 			{"C04.exact-reads", "fixed-size fields are read completely (no direct Read in the decoding primitives; byte counts used)", 1, func(c *Ctx) { c.exactReads() }},
 			{"C04.errors-not-dropped", "no error of the operations this property depends on is dropped", 1, func(c *Ctx) { c.errorsNotDropped("C04") }},
 			{"C04.index-writes", "StoreIndex of every back end reports success only after its write primitives completed", 6, func(c *Ctx) { c.writePrimitives("C04") }},
+			{"C04.outputs-truncated", "output files are created truncating (shared with C13/C05)", 10, func(c *Ctx) { c.outputsTruncated() }},
 		},
 	})
 }
